@@ -5,8 +5,6 @@ import Jap.Core.Emitter
 
 namespace Jap.Scalar
 
-theorem allow_unicode_true : allowUnicodeCfg = true := by decide
-
 theorem hexVal_hexDigitU : ∀ k, k < 16 → hexVal (hexDigitU k) = some k := by decide
 theorem printable_hexDigitU : ∀ k, k < 16 → yamlPrintable (hexDigitU k) = true := by decide
 
@@ -110,13 +108,13 @@ theorem namedEscape_spec (n : Nat) (e : Char) (h : namedEscape n = some e) :
   simp [namedEscape, h0, h7, h8, h9, h10, h11, h12, h13, h27, h34, h92, h133, h160, h8232, h8233] at h
 
 /-- one source character through `write_double_quoted` and back -/
-theorem dq_char_step (c : Char) (out b rest : List Char) :
-    ∃ out' b', qGo false ⟨out, .ws b, false, .none⟩ (writeDoubleChar true c ++ rest)
+theorem dq_char_step (au : Bool) (c : Char) (out b rest : List Char) :
+    ∃ out' b', qGo false ⟨out, .ws b, false, .none⟩ (writeDoubleChar au c ++ rest)
         = qGo false ⟨out', .ws b', false, .none⟩ rest ∧ out' ++ b' = out ++ b ++ [c] := by
   have hc : Char.ofNat c.toNat = c := Char.ofNat_toNat c
   have hv := validCode_char c
   unfold writeDoubleChar
-  by_cases hraw : dqRaw true c = true
+  by_cases hraw : dqRaw au c = true
   · simp only [hraw, if_true]
     have h34 : c.toNat ≠ 34 := by intro h; simp [dqRaw, h] at hraw
     have h92 : c.toNat ≠ 92 := by intro h; simp [dqRaw, h] at hraw
@@ -162,29 +160,29 @@ theorem dq_char_step (c : Char) (out b rest : List Char) :
           simp [isBlank, isBreak, flush, this, hc]
 
 /-- `write_double_quoted` (no folding) followed by the closing quote is read back exactly -/
-theorem qGo_double (s : List Char) : ∀ (out b tail : List Char),
-    qGo false ⟨out, .ws b, false, .none⟩ (writeDoubleBody true s ++ '"' :: tail) = some (out ++ b ++ s, tail) := by
+theorem qGo_double (au : Bool) (s : List Char) : ∀ (out b tail : List Char),
+    qGo false ⟨out, .ws b, false, .none⟩ (writeDoubleBody au s ++ '"' :: tail) = some (out ++ b ++ s, tail) := by
   induction s with
   | nil => intro out b tail; simp [writeDoubleBody, qGo, isBlank, isBreak, flush]
   | cons c cs ih =>
     intro out b tail
-    obtain ⟨out', b', h1, h2⟩ := dq_char_step c out b (writeDoubleBody true cs ++ '"' :: tail)
+    obtain ⟨out', b', h1, h2⟩ := dq_char_step au c out b (writeDoubleBody au cs ++ '"' :: tail)
     simp only [writeDoubleBody, List.append_assoc]
     rw [h1, ih, h2]
     simp
 
 /-- characters of a single-line string that the emitter may write raw in the plain and single-quoted styles -/
-def okChar (c : Char) : Bool := !(isSpecialA true c) && !(isBreakA c)
+def okChar (au : Bool) (c : Char) : Bool := !(isSpecialA au c) && !(isBreakA c)
 
-theorem okChar_facts (c : Char) (hok : okChar c = true) :
+theorem okChar_facts (au : Bool) (c : Char) (hok : okChar au c = true) :
     c.toNat ≠ 9 ∧ c.toNat ≠ 13 ∧ c.toNat ≠ 10 ∧ c.toNat ≠ 133 ∧ c.toNat ≠ 8232 ∧ c.toNat ≠ 8233 ∧ c.toNat ≠ 0 := by
   refine ⟨?_, ?_, ?_, ?_, ?_, ?_, ?_⟩ <;> intro h <;> simp [okChar, isSpecialA, isBreakA, h] at hok
 
-theorem sq_char_step (c : Char) (hok : okChar c = true) (out b rest : List Char) :
+theorem sq_char_step (au : Bool) (c : Char) (hok : okChar au c = true) (out b rest : List Char) :
     ∃ out' b', qGo true ⟨out, .ws b, false, .none⟩ ((if c.toNat = 39 then ['\'', '\''] else [c]) ++ rest)
         = qGo true ⟨out', .ws b', false, .none⟩ rest ∧ out' ++ b' = out ++ b ++ [c] := by
   have hc : Char.ofNat c.toNat = c := Char.ofNat_toNat c
-  obtain ⟨h9, h13, h10, h133, h8232, h8233, _⟩ := okChar_facts c hok
+  obtain ⟨h9, h13, h10, h133, h8232, h8233, _⟩ := okChar_facts au c hok
   by_cases h39 : c.toNat = 39
   · refine ⟨out ++ b ++ [c], [], ?_, by simp⟩
     simp only [h39, if_true]
@@ -198,7 +196,7 @@ theorem sq_char_step (c : Char) (hok : okChar c = true) (out b rest : List Char)
       simp [qGo, isBlank, isBreak, flush, hsp, h9, h10, h13, h133, h8232, h8233, h39]
 
 /-- `write_single_quoted` (single line, no folding) followed by the closing quote is read back exactly -/
-theorem qGo_single (s : List Char) (hs : ∀ c ∈ s, okChar c = true) : ∀ (out b tail : List Char),
+theorem qGo_single (au : Bool) (s : List Char) (hs : ∀ c ∈ s, okChar au c = true) : ∀ (out b tail : List Char),
     (∀ d ts, tail = d :: ts → d.toNat ≠ 39) →
     qGo true ⟨out, .ws b, false, .none⟩ (writeSingleBody s ++ '\'' :: tail) = some (out ++ b ++ s, tail) := by
   induction s with
@@ -211,7 +209,7 @@ theorem qGo_single (s : List Char) (hs : ∀ c ∈ s, okChar c = true) : ∀ (ou
       simp [writeSingleBody, qGo, isBlank, isBreak, flush, this]
   | cons c cs ih =>
     intro out b tail ht
-    obtain ⟨out', b', h1, h2⟩ := sq_char_step c (hs c List.mem_cons_self) out b (writeSingleBody cs ++ '\'' :: tail)
+    obtain ⟨out', b', h1, h2⟩ := sq_char_step au c (hs c List.mem_cons_self) out b (writeSingleBody cs ++ '\'' :: tail)
     simp only [writeSingleBody, List.append_assoc]
     rw [h1, ih (fun x hx => hs x (List.mem_cons_of_mem _ hx)) _ _ _ ht, h2]
     simp
